@@ -45,6 +45,16 @@ def snap(m):
     return m
 
 
+def _first_parts():
+    parts = [((0, 8),), ((9, 13),), ((14, 31),), ((48, 57),), ((65, 90),), ((97, 122),), ((127, 159),), ((160, 255),),
+             ((256, 0x10FFFF),)]
+    parts += [((c, c),) for c in list(range(32, 48)) + list(range(58, 65)) + list(range(91, 97)) + list(range(123, 127))]
+    return parts
+
+
+FIRST = _first_parts()
+
+
 class Chars(Harness):
     prop = "C06"
     functions = FUNCS
@@ -57,10 +67,19 @@ class Chars(Harness):
 
     @property
     def bounds(self):
-        return "loader %s, every text of length %d over alphabet '%s'" % (self.dialect, self.n, ALPHA[self.dialect])
+        f = getattr(self, "first", None)
+        return "loader %s, every text of length %d over alphabet '%s'%s" % (
+            self.dialect, self.n, ALPHA[self.dialect],
+            "" if f is None else " whose first character lies in %s (one obligation per part of the alphabet)" % (FIRST[f],))
 
     def inputs(self, ctx):
-        return {"s": ctx.fresh_str(self.n, "s")}
+        first = getattr(self, "first", None)
+        if first is None:
+            return {"s": ctx.fresh_str(self.n, "s")}
+        # a large obligation is split by the class of its first character (FIRST partitions the alphabet)
+        from ..core import ranges_inter, ALPHABETS
+        dom = ranges_inter(ALPHABETS[ALPHA[self.dialect]], FIRST[first])
+        return {"s": SymStr([ctx.fresh_char("s0", dom)] + list(ctx.fresh_str(self.n - 1, "s").cs))}
 
     def prop_fn(self, L, inp):
         s = inp["s"]
@@ -73,6 +92,11 @@ class Chars(Harness):
         return Outcome("module", hasattr(m, "items"), {"module": snap(m)})
 
 
+TOKEN_PREFIXES = {"": [], "inset": ["a", "=", "{"], "inseq": ["a", "=", "(", "1", ","], "ingroup": ["GROUP", "=", "a"],
+                  "setinset": ["a", "=", "{", "{"], "afterunits": ["a", "=", "(", "1", "<m>"],
+                  "seqinset": ["a", "=", "{", "("]}
+
+
 class Tokens(Harness):
     prop = "C06"
     alphabet = "ascii"
@@ -82,15 +106,20 @@ class Tokens(Harness):
 
     @property
     def bounds(self):
-        return ("loader %s, every stream of at most %d tokens over the %d-lexeme vocabulary %s (choices made lazily: "
-                "positions never pulled stay free)" % (self.dialect, self.k, len(st.VOCAB), st.VOCAB))
+        return ("loader %s, the fixed token prefix %s%s followed by every stream of at most %d tokens over the %d-lexeme "
+                "vocabulary %s (choices made lazily: positions never pulled stay free)" % (
+                    self.dialect, TOKEN_PREFIXES[getattr(self, "prefix", "")],
+                    (" + first token no. %s (one obligation per choice)" % self.split) if getattr(self, "split", "") else "",
+                    self.k, len(st.VOCAB), st.VOCAB))
 
     def inputs(self, ctx):
-        return {"stream": st.LazyStream(ctx, self.k)}
+        sp = getattr(self, "split", "")
+        pre = [st.VOCAB.index(t) for t in TOKEN_PREFIXES[getattr(self, "prefix", "")]] + ([int(x) for x in sp.split(".")] if sp else [])
+        return {"stream": st.LazyStream(ctx, self.k, pre)}
 
     def prop_fn(self, L, inp):
         picked = []
-        counter = st.Counter(40 * (self.k + 2))
+        counter = st.Counter(40 * (self.k + 2 + len(TOKEN_PREFIXES[getattr(self, "prefix", "")])))
         lx = st.make_lexer(L, inp["stream"], picked, counter)
         try:
             m = load(L, self.dialect, lexer_fn=lx)
@@ -108,10 +137,23 @@ def obligations(tier):
     quick = tier == "quick"
     for d in LOADERS:
         nmax = (3 if d != "Omni" else 2) if quick else (4 if d != "Omni" else 3)
+        from ..core import ranges_inter, ALPHABETS
         for n in range(0, nmax + 1):
-            obs.append(Chars(dialect=d, n=n, shard_bits=0 if n < 3 else (4 if n == 3 else 7)))
-        k = 5 if quick else 7
-        obs.append(Tokens(dialect=d, k=k, shard_bits=5 if quick else 8))
+            if n < 4:
+                obs.append(Chars(dialect=d, n=n, shard_bits=0 if n < 3 else 4))
+            else:
+                for i, part in enumerate(FIRST):
+                    if ranges_inter(ALPHABETS[ALPHA[d]], part):
+                        obs.append(Chars(dialect=d, n=n, first=i, shard_bits=2))
+        if quick:
+            obs.append(Tokens(dialect=d, k=5, shard_bits=5))
+        else:
+            # 6 tokens = every choice of the first one + 5 symbolic ones
+            from .c05 import splits
+            obs += [Tokens(dialect=d, k=5, split=sp, shard_bits=3) for sp in splits(1)]
+        for pre in TOKEN_PREFIXES:
+            if pre:
+                obs.append(Tokens(dialect=d, k=3 if quick else 4, prefix=pre, shard_bits=4 if quick else 6))
     return obs
 
 
